@@ -636,11 +636,27 @@ def gen_c20(rng, tier):
         else:
             # stored-history policies with many partial fits: labels first seen after the first batch
             base = gen.gen_ctx_case(rng, nps=["radius", "knearest", "lsh"], max_ops=9, fit_prob=0.02, label="int")
-            return {"kind": kind, "base": base, "style2": rng.choice(["str", "str", "float", "negint"])}
+            return {"kind": kind, "base": base, "style2": rng.choice(["str", "str", "float", "negint", "mixed"])}
         if rng.random() < 0.5 and 0 not in base["arms"] and not any(o[0] == "add" and o[1] == 0 for o in base["ops"]):
             base = remap_arm(base, rng.choice(base["arms"]), 0)     # the falsy label 0
-        return {"kind": kind, "base": base, "style2": rng.choice(["str", "float", "negint"])}
+        return {"kind": kind, "base": base, "style2": rng.choice(["str", "float", "negint", "mixed"])}
     if kind == "permute":
+        if rng.random() < 0.08:
+            # one fit with thousands of rows from a time-ordered log whose contexts drift, then its permutation: whatever the code
+            # does per block of rows (buffers, running standardisation) must not show in the expectations
+            base = gen_c02_large(rng)["base"]
+            lp = list(base["lp"])
+            if lp[0] == "lints":
+                lp[0] = "linucb"; lp[1] = 0.5
+            base["lp"] = tuple(lp)
+            ds, rs, cx = base["ops"][0][1], base["ops"][0][2], base["ops"][0][3]
+            if len(base["ops"]) > 1:
+                ds, rs, cx = ds + base["ops"][1][1], rs + base["ops"][1][2], cx + base["ops"][1][3]
+            n = len(ds)
+            cx = [[row[0] + round(10.0 * i / n, 2)] + row[1:] for i, row in enumerate(cx)]
+            q = [cx[rng.randrange(n)] for _ in range(3)]
+            base["ops"] = [("fit", ds, rs, cx), ("pexp", q)]
+            return {"kind": kind, "base": base, "seed2": rng.randint(0, 10**9)}
         if rng.random() < 0.4:
             base = gen.gen_cf_case(rng, max_ops=6, styles=["dyadic", "smallint", "binary", "nonneg_dyadic"], warm=False)
         else:
